@@ -639,6 +639,59 @@ def monitor(tier, seed):
     return res
 
 
+def miri(tier, seed):
+    """Memory-model monitor (invisible to TLA+): short random histories of the same driver executed by
+    the Miri interpreter (nightly), which checks every access of the crate's unsafe code against the
+    Rust abstract machine (uninitialised reads, out-of-bounds inside an allocation, dangling and
+    misaligned references, Stacked Borrows, invalid values). Slow: about 10 s per event."""
+    key = key_of("miri", repo_hash(), verif_hash(), tier, seed)
+    c = cache_get("miri", key)
+    if c:
+        c["cached"] = True
+        return c
+    t0 = time.time()
+    d = os.path.join(BUILD, "miri")
+    os.makedirs(os.path.join(d, ".cargo"), exist_ok=True)
+    with open(os.path.join(d, "Cargo.toml"), "w") as f:
+        f.write('[package]\nname = "gvh"\nversion = "0.0.0"\nedition = "2021"\n\n[dependencies]\ngecs = { path = "%s" }\n\n'
+                '[features]\nevents = ["gecs/events"]\nwrapping_version = ["gecs/wrapping_version"]\n32_components = ["gecs/32_components"]\n\n'
+                '[[bin]]\nname = "gvh"\npath = "%s"\n\n[workspace]\n' % (REPO, os.path.join(HARNESS, "main.rs")))
+    with open(os.path.join(d, ".cargo", "config.toml"), "w") as f:
+        f.write('[net]\noffline = true\n[build]\nrustflags = ["--cfg", "gecs_verif", "-Awarnings"]\ntarget-dir = "target"\n')
+    shutil.copy(os.path.join(REPO, "Cargo.lock"), os.path.join(d, "Cargo.lock"))
+    env = {"MIRIFLAGS": "-Zmiri-disable-isolation -Zmiri-ignore-leaks"}
+    nruns = 2 if tier == "quick" else 6
+    def one(i):
+        trace = os.path.join(_trace_dir(), "miri-%s-%d.ndjson" % (key[:8], i))
+        args = ["drive", "--seed", str(seed * 131 + i), "--runs", "1", "--steps", "22" if tier == "quick" else "40", "--max-probe", "2", "--out", trace]
+        if i % 2 == 1:
+            args.append("--no-faults")
+        rc, out, dt = sh(["cargo", "+nightly", "miri", "run", "-q", "--"] + args, cwd=d, env=env, timeout=4 * 3600, check=False)
+        n = 0
+        if os.path.exists(trace):
+            n, _ = _count_ops(trace)
+            os.remove(trace)
+        if os.path.exists(trace + ".cur"):
+            os.remove(trace + ".cur")
+        return {"i": i, "rc": rc, "events": n, "wall_s": round(dt, 1), "out": out}
+    with ThreadPoolExecutor(max_workers=nruns) as ex:
+        parts = list(ex.map(one, range(nruns)))
+    violations = []
+    for p in parts:
+        o = p.pop("out")
+        if "Undefined Behavior" in o or "error: unsupported operation" in o and "gecs" in o:
+            at = o.find("Undefined Behavior")
+            violations.append({"tags": ["C03", "C04", "C10"], "what": "Miri reports undefined behaviour in a history of safe API calls",
+                               "at": 0, "event": {"miri": o[max(0, at - 300):at + 2500]}, "origin": {"engine": "miri", "seed": seed, "run": p["i"]}})
+        elif p["rc"] != 0 and ("could not compile" in o or "error: no such command" in o or p["events"] == 0):
+            raise ToolError("miri run failed: " + o[-2000:])
+    res = {"engine": "miri", "tier": tier, "seed": seed, "traces": nruns, "events": sum(p["events"] for p in parts),
+           "runs": parts, "tlc_states": 0, "tlc_transitions": 0,
+           "violations": violations, "samples": [], "wall_s": round(time.time() - t0, 1), "cached": False}
+    cache_put("miri", key, res)
+    return res
+
+
 def loops(tier, seed):
     """C06/C07 spec -> code: every (population, decision function, loop kind) of LoopsMC replayed."""
     key = key_of("loops", repo_hash(), verif_hash(), tier)
